@@ -340,7 +340,7 @@ def groupAggM (agg : Lam) (failure : Option Err) (fallback : Bool) : List (Value
 def groupsM (key : Lam) (val : Option Lam) : VL → List (Value × VL) → R (List (Value × VL))
   | [], g => .ok g
   | x :: xs, g => do
-    let v ← match val with | none => pure x | some l => l.eval x
+    let v ← (val.getD .arg).eval x
     let k ← key.eval x
     if !hashable k then .error .type
     groupsM key val xs (addToGroup k v g)
@@ -1076,7 +1076,7 @@ def runOp (op : Op) (o : Obj) : R Obj := do
     | .mdict d =>
       match op with
       | .setFn => .error .type                                   -- unhashable
-      | .listLit _ | .repeatTake _ _ | .generate _ _ _ _ _ => .error .outOfDomain   -- (embedding it loses the distinction)
+      | .listLit _ | .listFn | .repeatTake _ _ | .generate _ _ _ _ _ => .error .outOfDomain   -- (embedding it loses the distinction)
       | op => runOp1 op (.val (dict d))
     | o => runOp1 op o
   match r with
